@@ -312,8 +312,13 @@ fn historical(run: &Run) {
     let lives = [0u64, 10, 100];
     let counts = [0usize, 1, 5];
     let now = SystemTime::now();
-    let t_old = now - Duration::from_secs(400);
-    let t_new = now - Duration::from_secs(100);
+    // (earlier, later) timestamps relative to now: both past; the later one ahead of the clock; both ahead of the clock
+    let stamps = [
+        ("both past", now - Duration::from_secs(400), now - Duration::from_secs(100)),
+        ("later one in the future", now - Duration::from_secs(100), now + Duration::from_secs(300)),
+        ("both in the future", now + Duration::from_secs(100), now + Duration::from_secs(400)),
+    ];
+    for (when, t_old, t_new) in stamps {
     for lo in lives {
         for ln in lives {
             for co in counts {
@@ -326,7 +331,7 @@ fn historical(run: &Run) {
                     newer.quoting_metrics.received_payment_count = cn;
                     let inconsistent = ln < lo || cn < co;
                     for order in 0..2 {
-                        let desc = json!({"op":"historical_verify","older":{"live":lo,"payments":co},"newer":{"live":ln,"payments":cn},"receiver": if order==0 {"older"} else {"newer"}});
+                        let desc = json!({"op":"historical_verify","timestamps":when,"older":{"live":lo,"payments":co},"newer":{"live":ln,"payments":cn},"receiver": if order==0 {"older"} else {"newer"}});
                         run.case(desc.to_string().as_bytes(), true);
                         let r = catch(|| if order == 0 { older.historical_verify(&newer) } else { newer.historical_verify(&older) });
                         match r {
@@ -346,6 +351,7 @@ fn historical(run: &Run) {
                 }
             }
         }
+    }
     }
 }
 
@@ -416,7 +422,7 @@ pub fn main(tier: Option<&str>) {
     run.rule(
         "quotes: every subset (<=3 fields quick, all 2^10 thorough) of field mutations x pub_key in {n1,n2,garbage,empty} x signature \
          provenance in 7 variants x claimed identity in {n1,n2}; proofs: every sequence of <=3(4) entries over 5 entry kinds verified \
-         for n1,n2,n3; expiry: 10 ages each alone and inside a proof in both positions; history: 3x3x3x3 metric grid x both receivers; driver layer: every delivery order of every selection of <=3(4) quotes with \
+         for n1,n2,n3; expiry: 10 ages each alone and inside a proof in both positions; history: 3x3x3x3 metric grid x both receivers x 3 timestamp placements (both past, later one ahead of the clock, both ahead); driver layer: every delivery order of every selection of <=3(4) quotes with \
          distinct ages from a pool (3(4) ages x 3 live times x 2 payment counts) through a real SwarmDriver's QuoteVerification handling, the peer's issue list read after every delivery. \
          A case is non-trivial when at least one thing differs from the authentic quote / the proof is non-empty.",
     );
